@@ -9,7 +9,7 @@ second run that must report nothing required and issue no write.
 """
 import random
 
-from .. import dbrig, evocases, evorig, sigs
+from .. import dbrig, evocases, evorig, optrig, sigs
 from .c03 import initial_rollup, name_reuse, touches_renamed_model  # noqa
 from .c11 import dangling
 
@@ -30,6 +30,12 @@ def gen_history(rng, n):
                                         kinds=['AddField'] * 4 + ['ChangeField'] * 3 + ['DeleteField'] * 2 +
                                         ['RenameField', 'DeleteModel'])
         if final is None or not muts or dangling(final, set()):
+            return None
+        # a relation must never name a model that is already gone, not even between two mutations of one
+        # evolution (the field has to go before its target does): such an evolution cannot be executed in any
+        # way, which is not what this property is about
+        if any(dangling(sigs.real_simulate(sig, 'vapp', [sigs.real_mutation(m) for m in muts[:k]])[1], set())
+               for k in range(1, len(muts))):
             return None
         if any(m['t'] == 'ChangeField' and any(a in ('db_table', 'db_index', 'unique') for a, _ in m['attrs'])
                for m in muts):
@@ -82,6 +88,32 @@ def signature_only_history():
               'attrs': [['null', 'true']]}],
             [{'t': 'AddField', 'model': 'Item', 'field': 'note', 'ftype': 'CharField', 'initial': None,
               'attrs': [['max_length', '20'], ['null', 'true']]}]]
+    sig = dbrig.sig_from_models(dbrig.build_models(spec0))
+    specs = [spec0]
+    for e in evos:
+        sig = sigs.real_simulate(sig, 'vapp', [sigs.real_mutation(m) for m in e])[1]
+        sp = dbrig.spec_from_sig(sig)
+        sp['apps'] = [a for a in sp['apps'] if a['id'] == 'vapp']
+        specs.append(sp)
+    return specs, evos
+
+
+def readd_history():
+    """a column dropped in one version and a column of the same name (another type) added back in the next,
+    then a change of an unrelated field: a direct upgrade carries the drop and the re-add in one batch"""
+    def fld(name, t, **attrs):
+        return {'name': name, 'type': t, 'attrs': attrs, 'related': None}
+
+    def mdl(name, fields):
+        return {'name': name, 'table': 'vapp_%s' % name.lower(), 'unique_together': [], 'index_together': [],
+                'indexes': [], 'constraints': [], 'fields': [fld('id', 'AutoField', primary_key=True)] + fields}
+    spec0 = {'apps': [{'id': 'vapp', 'models': [mdl('Item', [fld('name', 'CharField', max_length=10),
+                                                            fld('code', 'CharField', max_length=10)])]}]}
+    evos = [[{'t': 'DeleteField', 'model': 'Item', 'field': 'code'}],
+            [{'t': 'AddField', 'model': 'Item', 'field': 'code', 'ftype': 'IntegerField', 'initial': None,
+              'attrs': [['null', 'true']]}],
+            [{'t': 'ChangeField', 'model': 'Item', 'field': 'name', 'ftype': None, 'initial': None,
+              'attrs': [['max_length', '20']]}]]
     sig = dbrig.sig_from_models(dbrig.build_models(spec0))
     specs = [spec0]
     for e in evos:
@@ -183,7 +215,7 @@ def muts_of(e):
     return [m for _, _, ms in parts(0, e) for m in ms]
 
 
-SCRIPTED = [scripted_history, two_app_history, signature_only_history, new_model_history]
+SCRIPTED = [scripted_history, two_app_history, signature_only_history, new_model_history, readd_history]
 
 
 def install(specs, evos, version):
@@ -248,6 +280,18 @@ def second_run():
             # a further run that cannot even be prepared is certainly not "nothing required"
             return 'raises %s: %s' % (type(e).__name__, str(e)[:80]), False, tr.write_statements()
     return required, diff_empty, tr.write_statements()
+
+
+def opt_explains(ctx, spec, seg):
+    """a batched-only difference is put down to the optimiser findings of C03 only where the batch has their
+    shape (a name that changes existence twice, a renamed model), the optimiser does what its Lean model does,
+    and by the model that changes the outcome"""
+    if not (name_reuse(seg) or touches_renamed_model(seg)):
+        return False
+    single = all(a['id'] == 'vapp' for a in spec['apps']) and len(spec['apps']) == 1
+    if not single:
+        return True        # multi-app histories are outside the optimiser rig
+    return optrig.model_explains_optimiser(ctx, spec, seg) and optrig.model_predicts_difference(ctx, spec, seg)
 
 
 def split_correspondence(ctx, spec0, evos):
@@ -363,8 +407,8 @@ def run(ctx):
                     seg = [m for e in evos[i:] for m in muts_of(e)]
                     if 'constraint failed' in (err or ''):
                         ctx.count('path_failed:data_violates_new_constraint')   # not a defect: the rows do
-                    elif name_reuse(seg) or touches_renamed_model(seg) or \
-                            any(name_reuse(muts_of(e)) for e in evos[i:]):
+                    elif opt_explains(ctx, specs[i], seg) or \
+                            any(opt_explains(ctx, specs[k], muts_of(evos[k])) for k in range(i, n)):
                         opt_w = opt_w or r
                     elif 'no such index' in (err or '') or 'DatabaseStateError' in (err or ''):
                         ctx.count('path_failed_known_C01')
@@ -383,8 +427,8 @@ def run(ctx):
                 seg = [m for e in evos[i:] for m in muts_of(e)]
                 # batches in which a name changes existence more than once are mis-optimised (C03 finding
                 # F20): what the run then leaves behind is attributed to that finding, nothing else is
-                excused = (path == 'direct' and (name_reuse(seg) or touches_renamed_model(seg) or initial_rollup(seg))) \
-                    or any(name_reuse(muts_of(e)) or touches_renamed_model(muts_of(e)) for e in evos[i:])
+                excused = (path == 'direct' and (opt_explains(ctx, specs[i], seg) or initial_rollup(seg))) \
+                    or any(opt_explains(ctx, specs[k], muts_of(evos[k])) for k in range(i, n))
 
                 def report(what):
                     nonlocal opt_w
@@ -436,7 +480,7 @@ def run(ctx):
             r = dict(rep, start=i)
             if a['rows'] != b['rows'] or dbrig.schema_diff(a['schema'], b['schema']):
                 ctx.count('stepwise_vs_direct_differ')
-                if name_reuse(seg) or touches_renamed_model(seg) or initial_rollup(seg):
+                if opt_explains(ctx, specs[i], seg) or initial_rollup(seg):
                     opt_w = opt_w or r
                 else:
                     from .c01 import classify
